@@ -1,6 +1,7 @@
 import Gimli.Spec.Index
 import Gimli.Model.Index
 import Gimli.Lemmas.Ints
+import Gimli.Lemmas.C17Util
 import Mathlib.Data.Fintype.EquivFin
 import Mathlib.Data.Nat.GCD.Basic
 import Mathlib.Data.Nat.ModEq
@@ -319,6 +320,30 @@ theorem buildFrom_spec (k : Nat) (kvs : List (Nat × Nat)) (t t' : Table) (hinv 
         · rcases List.mem_cons.mp hmem with he | hm
           · left; exact ⟨p0, hp0, by rw [hs]; simp [he]⟩
           · right; exact hm
+/-- with pairwise distinct signatures the exhaustive scan returns `row` exactly for the listed pairs -/
+theorem scan_iff (kvs : List (Nat × Nat)) (hd : kvs.Pairwise (fun a b => a.1 ≠ b.1)) (id row : Nat) :
+    scan kvs id = some row ↔ (id, row) ∈ kvs := by
+  induction kvs with
+  | nil => simp [scan]
+  | cons kv kvs ih =>
+    have hd' := List.pairwise_cons.mp hd
+    unfold scan at ih ⊢
+    rw [List.find?_cons]
+    by_cases h : kv.1 = id
+    · simp only [h, decide_true, Option.map_some, Option.some.injEq, List.mem_cons]
+      constructor
+      · intro hr; left; rw [← h, ← hr]
+      · rintro (he | hm)
+        · rw [← he]
+        · exact absurd h (by have := hd'.1 (id, row) hm; simpa using this)
+    · simp only [h, decide_false]
+      rw [ih hd'.2, List.mem_cons]
+      constructor
+      · intro hm; right; exact hm
+      · rintro (he | hm)
+        · exact absurd (by rw [← he]) h
+        · exact hm
+
 end Gimli.Spec.Index
 
 namespace Gimli.Index
@@ -509,4 +534,124 @@ theorem sections_matrix (e : Endian) (ix : UnitIndex) (offs szs : List (List Nat
   have hs := hcs _ (List.getElem_mem hps)
   rw [sectionIter_rows e ix.sections _ _ _ _ (by rw [ho.1, hk]) (by rw [hs.1, hk]) ho.2 hs.2]
   simp [List.getD_eq_getElem?_getD, hpo, hps]
+/-! ### `UnitIndex::parse`: accepted slot counts, layout -/
+
+open Gimli.C17
+
+theorem parse_ok_slotCount (e : Endian) (input : Bytes) (ix : UnitIndex)
+    (h : parse e input = .ok ix) :
+    ix.slotCount = 0 ∨ ((∃ k, ix.slotCount = 2 ^ k) ∧ ix.unitCount < ix.slotCount) := by
+  unfold parse at h
+  split at h
+  · simp only [Out.ok.injEq] at h; subst h; left; rfl
+  · obtain ⟨⟨version, r0⟩, h0, h⟩ := bind_eq_ok _ _ _ h
+    obtain ⟨⟨sc, r1⟩, h1, h⟩ := bind_eq_ok _ _ _ h
+    obtain ⟨⟨uc, r2⟩, h2, h⟩ := bind_eq_ok _ _ _ h
+    obtain ⟨⟨slots, r3⟩, h3, h⟩ := bind_eq_ok _ _ _ h
+    simp only at h
+    split at h
+    · simp at h
+    · rename_i hcheck
+      obtain ⟨⟨ids, r4⟩, h4, h⟩ := bind_eq_ok _ _ _ h
+      obtain ⟨⟨rows, r5⟩, h5, h⟩ := bind_eq_ok _ _ _ h
+      simp only at h
+      split at h
+      · simp at h
+      · obtain ⟨⟨kinds, r6⟩, h6, h⟩ := bind_eq_ok _ _ _ h
+        obtain ⟨⟨offs, r7⟩, h7, h⟩ := bind_eq_ok _ _ _ h
+        obtain ⟨⟨szs, r8⟩, h8, h⟩ := bind_eq_ok _ _ _ h
+        simp only [Out.pure_eq, Out.ok.injEq] at h
+        subst h
+        simp only
+        by_cases hz : slots = 0
+        · left; exact hz
+        · right
+          have hc : ¬ (slots &&& (slots - 1) ≠ 0 ∨ slots ≤ uc) := fun hh => hcheck ⟨hz, hh⟩
+          have h1' : slots &&& (slots - 1) = 0 := by
+            by_contra hne; exact hc (Or.inl hne)
+          have h2' : uc < slots := by
+            by_contra hle; exact hc (Or.inr (by omega))
+          exact ⟨(Nat.and_sub_one_eq_zero_iff_isPowerOfTwo hz).mp h1', h2'⟩
+
+theorem readKinds_split (e : Endian) (version n : Nat) (bs : Bytes) (ks : List SecKind) (r : Bytes)
+    (h : readKinds e version n bs = .ok (ks, r)) :
+    ∃ a, bs = a ++ r ∧ a.length = 4 * n ∧ ks.length = n := by
+  induction n generalizing bs ks r with
+  | zero =>
+    simp only [readKinds, Out.ok.injEq, Prod.mk.injEq] at h
+    exact ⟨[], by simp [h.2], rfl, by simp [← h.1]⟩
+  | succ n ih =>
+    rw [readKinds] at h
+    obtain ⟨⟨s, r1⟩, h1, h⟩ := bind_eq_ok _ _ _ h
+    obtain ⟨k, _, h⟩ := bind_eq_ok _ _ _ h
+    obtain ⟨⟨ks', r2⟩, h2, h⟩ := bind_eq_ok _ _ _ h
+    simp only [Out.pure_eq, Out.ok.injEq, Prod.mk.injEq] at h
+    obtain ⟨a1, e1, l1, _⟩ := readFixed_split e 4 bs s r1 h1
+    obtain ⟨a2, e2, l2, l3⟩ := ih r1 ks' r2 h2
+    refine ⟨a1 ++ a2, by rw [e1, e2, h.2, List.append_assoc], by simp [l1, l2]; omega, by rw [← h.1]; simp [l3]⟩
+
+theorem parseVersion_split (e : Endian) (input : Bytes) (v : Nat) (r : Bytes)
+    (h : parseVersion e input = .ok (v, r)) :
+    ∃ a, input = a ++ r ∧ a.length = 4 ∧ (v = 2 ∨ v = 5) := by
+  unfold parseVersion at h
+  obtain ⟨⟨v32, r0⟩, h0, h⟩ := bind_eq_ok _ _ _ h
+  obtain ⟨a, e1, l1, _⟩ := readFixed_split e 4 input v32 r0 h0
+  simp only at h
+  split at h
+  · simp only [Out.pure_eq, Out.ok.injEq, Prod.mk.injEq] at h
+    exact ⟨a, by rw [e1, h.2], l1, Or.inl h.1.symm⟩
+  · obtain ⟨⟨v16, r9⟩, _, h⟩ := bind_eq_ok _ _ _ h
+    simp only at h
+    split at h
+    · simp at h
+    · rename_i h5
+      simp only [Out.pure_eq, Out.ok.injEq, Prod.mk.injEq] at h
+      exact ⟨a, by rw [e1, h.2], l1, Or.inr (by rw [← h.1]; simpa using h5)⟩
+
+/-- **layout of a parsed index**: a 16-byte header, then `slot_count` 8-byte signatures, then
+`slot_count` 4-byte row numbers, then `section_count` column kinds, then the two row-major
+`unit_count × section_count` matrices of offsets and sizes -/
+theorem parse_layout (e : Endian) (input : Bytes) (ix : UnitIndex) (hne : input ≠ [])
+    (h : parse e input = .ok ix) :
+    ∃ hdr kindsB trailing,
+      input = hdr ++ ix.hashIds ++ ix.hashRows ++ kindsB ++ ix.offsets ++ ix.sizes ++ trailing ∧
+      hdr.length = 16 ∧ ix.hashIds.length = ix.slotCount * 8 ∧ ix.hashRows.length = ix.slotCount * 4 ∧
+      kindsB.length = 4 * ix.sectionCount ∧ ix.sections.length = ix.sectionCount ∧
+      ix.sectionCount ≤ 8 ∧ (ix.version = 2 ∨ ix.version = 5) ∧
+      ix.offsets.length = ix.unitCount * ix.sectionCount * 4 ∧
+      ix.sizes.length = ix.unitCount * ix.sectionCount * 4 := by
+  unfold parse at h
+  rw [if_neg (by simpa [List.isEmpty_iff] using hne)] at h
+  obtain ⟨⟨version, r0⟩, h0, h⟩ := bind_eq_ok _ _ _ h
+  obtain ⟨⟨sc, r1⟩, h1, h⟩ := bind_eq_ok _ _ _ h
+  obtain ⟨⟨uc, r2⟩, h2, h⟩ := bind_eq_ok _ _ _ h
+  obtain ⟨⟨slots, r3⟩, h3, h⟩ := bind_eq_ok _ _ _ h
+  simp only at h
+  split at h
+  · simp at h
+  obtain ⟨⟨ids, r4⟩, h4, h⟩ := bind_eq_ok _ _ _ h
+  obtain ⟨⟨rows, r5⟩, h5, h⟩ := bind_eq_ok _ _ _ h
+  simp only at h
+  split at h
+  · simp at h
+  rename_i hsc
+  obtain ⟨⟨kinds, r6⟩, h6, h⟩ := bind_eq_ok _ _ _ h
+  obtain ⟨⟨offs, r7⟩, h7, h⟩ := bind_eq_ok _ _ _ h
+  obtain ⟨⟨szs, r8⟩, h8, h⟩ := bind_eq_ok _ _ _ h
+  simp only [Out.pure_eq, Out.ok.injEq] at h
+  subst h
+  obtain ⟨a0, e0, l0, hv⟩ := parseVersion_split e input version r0 h0
+  obtain ⟨a1, e1, l1, _⟩ := readFixed_split e 4 r0 sc r1 h1
+  obtain ⟨a2, e2, l2, _⟩ := readFixed_split e 4 r1 uc r2 h2
+  obtain ⟨a3, e3, l3, _⟩ := readFixed_split e 4 r2 slots r3 h3
+  obtain ⟨e4, l4⟩ := take_ok_split _ _ _ _ h4
+  obtain ⟨e5, l5⟩ := take_ok_split _ _ _ _ h5
+  obtain ⟨a6, e6, l6, l6'⟩ := readKinds_split e version sc r5 kinds r6 h6
+  obtain ⟨e7, l7⟩ := take_ok_split _ _ _ _ h7
+  obtain ⟨e8, l8⟩ := take_ok_split _ _ _ _ h8
+  simp only at e5 e7 e8
+  refine ⟨a0 ++ a1 ++ a2 ++ a3, a6, r8, ?_, by simp [l0, l1, l2, l3], l4, l5, l6, l6', Nat.not_lt.mp hsc, hv, l7, l8⟩
+  simp only
+  rw [e0, e1, e2, e3, e4, e5, e6, e7, e8]
+  simp [List.append_assoc]
 end Gimli.Index
